@@ -158,10 +158,11 @@ def _run(params):
     return {'ok': True, 'params': params, 'snap': {k: r['snaps']['calculated'][k] for k in ('economics', 'wellbores', 'surfaceplant', 'reserv')}}
 
 
-FIXABLE = [('Reservoir Stimulation Capital Cost', [0.5, 3, 12]), ('Exploration Capital Cost', [0, 2.5, 20]),
+# user-given figures include the lower bound 0 of their accepted range ("exactly that figure is used" — a zero is a figure too)
+FIXABLE = [('Reservoir Stimulation Capital Cost', [0, 0.5, 3, 12]), ('Exploration Capital Cost', [0, 2.5, 20]),
            ('Well Drilling and Completion Capital Cost', [1.5, 6, 20]), ('Injection Well Drilling and Completion Capital Cost', [0.75, 8]),
-           ('Wellfield O&M Cost', [0.1, 1.5]), ('Surface Plant Capital Cost', [5, 40.5, 300]),
-           ('Field Gathering System Capital Cost', [0.5, 4]), ('Surface Plant O&M Cost', [0.2, 3]), ('Water Cost', [0, 0.25]),
+           ('Wellfield O&M Cost', [0, 0.1, 1.5]), ('Surface Plant Capital Cost', [0, 5, 40.5, 300]),
+           ('Field Gathering System Capital Cost', [0, 0.5, 4]), ('Surface Plant O&M Cost', [0, 0.2, 3]), ('Water Cost', [0, 0.25]),
            ('Total Capital Cost', [25, 110.5]), ('Total O&M Cost', [0.5, 6.25])]
 FACTORS = ['Reservoir Stimulation Capital Cost Adjustment Factor', 'Exploration Capital Cost Adjustment Factor',
            'Well Drilling and Completion Capital Cost Adjustment Factor', 'Injection Well Drilling and Completion Capital Cost Adjustment Factor',
